@@ -342,32 +342,45 @@ def r2_reachability(ctx, rep):
            py.nloc(refusal) if refusal is not None else py.nloc(pa))
     if refusal is not None:
         var = ast.unparse(refusal.target)
-        par = astq.parents_of(refusal)
-        raises = [r for r in ast.walk(refusal) if isinstance(r, ast.Raise)]
-        tests = [t for t, pol in astq.conditions_of(raises[0], par, stop=refusal) if pol]
-        eq = anc = False
-        for t in tests:
-            for n in ast.walk(t):
-                if isinstance(n, ast.Compare) and len(n.ops) == 1:
-                    l, r = ast.unparse(n.left), n.comparators[0]
-                    rt = ast.unparse(r)
-                    if isinstance(n.ops[0], ast.In) and "output_dir" in l:
-                        if f"{var}.parents" in rt:
-                            anc = True
-                        if isinstance(r, (ast.Tuple, ast.List, ast.Set)) and any(ast.unparse(e2) == var for e2 in r.elts):
-                            eq = True
-                    if isinstance(n.ops[0], ast.Eq) and {l.split(".")[-1], rt.split(".")[-1]} & {"output_dir"} and var in (l, rt):
-                        eq = True
-                if isinstance(n, ast.Call) and isinstance(n.func, ast.Attribute) and n.func.attr == "is_relative_to" and \
-                        ast.unparse(n.func.value) == var and n.args and "output_dir" in ast.unparse(n.args[0]):
-                    eq = anc = True
-                if isinstance(n, ast.Call) and call_name(n).endswith("commonpath") and "output_dir" in ast.unparse(n) and var in ast.unparse(n):
-                    eq = anc = True
-        ok = eq and anc
+
+        def atom(n):
+            """'eq' (output_dir == srcdir), 'anc' (output_dir among srcdir's parents), 'both' - however they are spelled"""
+            if isinstance(n, ast.Compare) and len(n.ops) == 1:
+                l, r = ast.unparse(n.left), n.comparators[0]
+                rt = ast.unparse(r)
+                if isinstance(n.ops[0], (ast.In, ast.NotIn)) and "output_dir" in l:
+                    pol = isinstance(n.ops[0], ast.In)
+                    anc = f"{var}.parents" in rt
+                    eq = isinstance(r, (ast.Tuple, ast.List, ast.Set)) and any(ast.unparse(e2) == var for e2 in r.elts)
+                    if eq or anc:
+                        return ("both" if eq and anc else "eq" if eq else "anc", pol)
+                if isinstance(n.ops[0], (ast.Eq, ast.NotEq)) and {l.split(".")[-1], rt.split(".")[-1]} & {"output_dir"} and var in (l, rt):
+                    return ("eq", isinstance(n.ops[0], ast.Eq))
+            if isinstance(n, ast.Call) and isinstance(n.func, ast.Attribute) and n.func.attr == "is_relative_to" and \
+                    ast.unparse(n.func.value) == var and n.args and "output_dir" in ast.unparse(n.args[0]):
+                return ("both", True)
+            if isinstance(n, ast.Compare) and any(isinstance(x, ast.Call) and call_name(x).endswith("commonpath") for x in ast.walk(n)) \
+                    and "output_dir" in ast.unparse(n) and var in ast.unparse(n):
+                return ("both", isinstance(n.ops[0], ast.Eq))
+            return None
+        # the raise events of the loop, with the conditions under which they run (early `continue`s included): the refusal
+        # must fire when the directories are equal and when output_dir is an ancestor, and not when they are unrelated
+        evs = [e for e in astq.trace_block([refusal], pa) if e.kind == "raise"]
+        cases = {"equal": {"eq": True, "anc": False, "both": True}, "ancestor": {"eq": False, "anc": True, "both": True},
+                 "unrelated": {"eq": False, "anc": False, "both": False}}
+        covered = {k: False for k in ("equal", "ancestor")}
+        texts = []
+        for e in evs:
+            fires = {k: astq.event_fires(e, atom, env) for k, env in cases.items()}
+            texts.append(e.cond_texts())
+            if fires["unrelated"] is False:
+                for k in covered:
+                    covered[k] = covered[k] or fires[k] is True
+        ok = all(covered.values())
         rep.ob("refusal predicate", ok, "refuses when output_dir equals or is an ancestor of a source directory"
-               if ok else "the refusal " + ("does not cover output_dir == source directory" if not eq else
+               if ok else "the refusal " + ("does not cover output_dir == source directory" if not covered["equal"] else
                                             "does not cover output_dir being an ancestor of the source directory") +
-               f" (tests: {[ast.unparse(t) for t in tests]}): FORD deletes the sources when it rebuilds the output directory",
+               f" (raised under: {texts}): FORD deletes the sources when it rebuilds the output directory",
                py.nloc(refusal))
     # main(): writeout is the first mutating step and comes after Project/correlate/markdown
     main = py.func("__init__.main")
